@@ -4,7 +4,8 @@
 From Coq Require Import List NArith ZArith Bool Sorted.
 From V Require Import Lib.Enc Model.Bits Proofs.BitsBasic Proofs.BitsIter Proofs.BitsBulk Proofs.BitsRefine Proofs.BitsEntry.
 From V Require Run.C16.
-From V Require Import Lib.GoSem Gen.BitsCode Proofs.BitsCode.
+From V Require Import Lib.GoSem Gen.BitsCode Proofs.BitsCode Proofs.BitsCodeRun.
+From V Require Run.C16Code.
 Import ListNotations.
 Local Open Scope N_scope.
 
@@ -122,3 +123,11 @@ Proof.
         (conj code_Diff (conj code_Intersect (conj code_Merge (conj of_to (conj to_of code_wf)))))))))))).
 Qed.
 Print Assumptions c16_code_is_model.
+
+(* the case interpreter of the correspondence run, kind 1 (setz.Bitmap), executed through the generated functions
+   (Run/C16Code.v: Add, Remove, Contains, Len, Cap, Grow, Diff, Intersect, Merge, Clone are the generated g_Bitmap_...; Iter /
+   Range / All stay the model's enumeration of the generated state's words) gives the output of `entry` on every case:
+   the differential run of entry 0 against the compiled package is, for kind 1, a run of the generated code *)
+Theorem c16_entry_runs_generated_code : forall sub args, Run.C16Code.entry_code sub args = Run.C16.entry sub args.
+Proof. exact entry_code_is_entry. Qed.
+Print Assumptions c16_entry_runs_generated_code.
